@@ -313,3 +313,53 @@ def _is_changed_compare(e, params, fields):
         return any(isinstance(x, ast.Name) and x.id in params for x in sides) and \
             any(isinstance(x, ast.Attribute) and isinstance(x.value, ast.Name) and x.value.id == 'self' and x.attr in fields for x in sides)
     return False
+
+
+def implied_atoms(guards, atoms):
+    """guards: [(test expr, polarity)], atoms: normalised texts of comparison atoms. Returns {atom: True/False} for the atoms whose
+    truth value is the same in every assignment of the atoms that satisfies all guards (propositional reasoning over and/or/not)."""
+    import itertools
+
+    def ev(e, asg):
+        if isinstance(e, ast.UnaryOp) and isinstance(e.op, ast.Not):
+            v = ev(e.operand, asg)
+            return None if v is None else (not v)
+        if isinstance(e, ast.BoolOp):
+            vs = [ev(v, asg) for v in e.values]
+            if isinstance(e.op, ast.And):
+                if any(v is False for v in vs):
+                    return False
+                return None if any(v is None for v in vs) else True
+            if any(v is True for v in vs):
+                return True
+            return None if any(v is None for v in vs) else False
+        t = norm(e)
+        if t in asg:
+            return asg[t]
+        # the negated spelling of an atom
+        if isinstance(e, ast.Compare) and len(e.ops) == 1 and type(e.ops[0]) in NEG:
+            neg = ast.Compare(left=e.left, ops=[NEG[type(e.ops[0])]()], comparators=e.comparators)
+            tn = norm(neg)
+            if tn in asg:
+                return not asg[tn]
+        return None
+    atoms = list(atoms)
+    sat = []
+    for vals in itertools.product((True, False), repeat=len(atoms)):
+        asg = dict(zip(atoms, vals))
+        ok = True
+        for e, pol in guards:
+            if pol == 'in-loop' or not isinstance(e, ast.AST):
+                continue
+            v = ev(e, asg)
+            if v is not None and v != bool(pol):
+                ok = False
+                break
+        if ok:
+            sat.append(asg)
+    out = {}
+    for a in atoms:
+        vs = {s[a] for s in sat}
+        if len(vs) == 1:
+            out[a] = vs.pop()
+    return out
